@@ -37,8 +37,8 @@ ASSUMPTIONS = [
     "reference; beyond that bound nothing is claimed",
 ]
 BOUNDS = {
-    "quick": "19 cover prefixes x 10 suffixes x 1 symbolic character (all of the alphabet at once)",
-    "thorough": "19 cover prefixes x 10 suffixes x 2 symbolic characters, plus every text of <= 4 symbolic characters from the initial state",
+    "quick": "19 cover prefixes x 12 suffixes x 1 symbolic character (all of the alphabet at once)",
+    "thorough": "19 cover prefixes x 12 suffixes x 2 symbolic characters, plus every text of <= 4 symbolic characters from the initial state",
 }
 EXPLANATION = (
     "For every (access text of a reference lexical state, characterising suffix) pair the text prefix + m symbolic characters + "
@@ -85,6 +85,10 @@ SUFFIX = [
     # a '/' at the start of the next line must not pair with a '*' that ended the previous line of a block comment
     ("slash-nl-close", "/\nq\n*/\nh\n"),
     ("quote-then-close", '"\n*/ k\n"s"\n'),
+    # inside a string a comment opener is text: separates "in a string literal" from every other state ...
+    ("opener-in-string", '/*"\nb\n*/ c\n'),
+    # ... and the same after the closing quote of a character constant (the demo of seed C05d: '/' followed by "/*")
+    ("close-char-opener-in-string", "'" + '"/*"\nb\n*/ c\n'),
 ]
 
 
